@@ -113,6 +113,7 @@ def gen_render():
             sp.append(c)
     t += "/-- the configuration of `BeautifulSoup(..., 'html.parser')` the re-parse runs under -/\n"
     t += "def livePCfg : PCfg where\n"
+    t += f"  voidAll := {'true' if b.empty_element_tags is None else 'false'}\n"
     t += f"  voidTags := [{', '.join(lean_str(x) for x in void)}]\n"
     t += f"  preserveWs := [{', '.join(lean_str(x) for x in pres)}]\n"
     t += f"  containers := [{', '.join(f'({lean_str(k)}, .{CTOR[v.__name__]})' for k, v in cont)}]\n"
